@@ -52,6 +52,10 @@ pub enum V {
     ArrRep(Box<V>, u32),
     /// object with `n` properties named `<prefix><i>` holding Number(i)
     ObjRep(S, u32),
+    /// `depth` containers nested inside each other (kinds chosen by `seed`: object {"k": x},
+    /// strict array [x], object {"a": Null, "k": x}, and - when `wire` - ECMA array {"k": x}) around
+    /// `leaf`; kept compact because replay files are JSON and serde_json stops at 128 levels
+    Deep { depth: u32, seed: u32, wire: bool, leaf: Box<V> },
     Null,
     Undef,
 }
@@ -68,8 +72,50 @@ pub const M_STRICT_ARRAY: u8 = 0x0A;
 
 /// true when every string / property name of the tree fits the 16-bit length AMF0 provides and
 /// no property name is empty (an empty name is the object terminator on the wire)
+/// The plain nested tree a `V::Deep` stands for (other nodes are returned as they are).
+pub fn unfold(v: &V) -> V {
+    match v {
+        V::Deep { depth, seed, wire, leaf } => {
+            let mut cur: V = (**leaf).clone();
+            // kinds from the inside out; level i (0 = outermost) uses the i-th draw
+            let mut kinds = Vec::with_capacity(*depth as usize);
+            let mut x = *seed | 1;
+            for _ in 0..*depth {
+                x ^= x << 13;
+                x ^= x >> 17;
+                x ^= x << 5;
+                kinds.push(x % if *wire { 4 } else { 3 });
+            }
+            for k in kinds.iter().rev() {
+                cur = match k {
+                    0 => V::Obj(vec![(S::lit("k"), cur)]),
+                    1 => V::Arr(vec![cur]),
+                    2 => V::Obj(vec![(S::lit("a"), V::Null), (S::lit("k"), cur)]),
+                    _ => V::Ecma(1, vec![(S::lit("k"), cur)]),
+                };
+            }
+            cur
+        }
+        other => other.clone(),
+    }
+}
+
+/// Nesting index of the deepest value of the tree: a top-level value is at 0, the members of a
+/// container one deeper than the container.  (The library documents a limit of 128.)
+pub fn deepest(v: &V) -> usize {
+    match v {
+        V::Obj(p) | V::Ecma(_, p) => p.iter().map(|x| 1 + deepest(&x.1)).max().unwrap_or(0),
+        V::Arr(a) => a.iter().map(|x| 1 + deepest(x)).max().unwrap_or(0),
+        V::ArrRep(x, n) => if *n > 0 { 1 + deepest(x) } else { 0 },
+        V::ObjRep(_, n) => if *n > 0 { 1 } else { 0 },
+        V::Deep { depth, leaf, .. } => *depth as usize + deepest(leaf),
+        _ => 0,
+    }
+}
+
 pub fn representable(v: &V) -> bool {
     match v {
+        V::Deep { leaf, .. } => representable(leaf),
         V::Str(s) => s.len() <= 0xFFFF,
         V::Obj(p) | V::Ecma(_, p) => p
             .iter()
@@ -131,6 +177,7 @@ pub fn enc_value(v: &V, out: &mut Vec<u8>) -> Result<(), String> {
                 enc_value(i, out)?;
             }
         }
+        V::Deep { .. } => enc_value(&unfold(v), out)?,
         V::ArrRep(v, n) => {
             out.push(M_STRICT_ARRAY);
             out.extend_from_slice(&n.to_be_bytes());
@@ -286,6 +333,7 @@ pub fn to_lib(v: &V) -> Amf0Value {
             Amf0Value::Object(m)
         }
         V::Arr(a) => Amf0Value::StrictArray(a.iter().map(to_lib).collect()),
+        V::Deep { .. } => to_lib(&unfold(v)),
         V::ArrRep(v, n) => Amf0Value::StrictArray(vec![to_lib(v); *n as usize]),
         V::ObjRep(prefix, n) => {
             let mut m = HashMap::new();
@@ -389,12 +437,13 @@ pub fn depth(v: &V) -> usize {
         V::Arr(a) => 1 + a.iter().map(depth).max().unwrap_or(0),
         V::ArrRep(v, _) => 1 + depth(v),
         V::ObjRep(_, _) => 1,
+        V::Deep { depth: d, leaf, .. } => *d as usize + depth(leaf),
         _ => 0,
     }
 }
 
 pub fn has_container(v: &V) -> bool {
-    matches!(v, V::Obj(_) | V::Ecma(_, _) | V::Arr(_) | V::ArrRep(_, _) | V::ObjRep(_, _))
+    matches!(v, V::Obj(_) | V::Ecma(_, _) | V::Arr(_) | V::ArrRep(_, _) | V::ObjRep(_, _)) || matches!(v, V::Deep { depth, .. } if *depth > 0)
 }
 
 /// Visits every node of the tree.
@@ -412,6 +461,7 @@ pub fn walk<'a>(v: &'a V, f: &mut dyn FnMut(&'a V)) {
             }
         }
         V::ArrRep(x, _) => walk(x, f),
+        V::Deep { leaf, .. } => walk(leaf, f),
         _ => {}
     }
 }
@@ -424,6 +474,7 @@ pub fn expand(v: &V) -> V {
         V::Obj(p) => V::Obj(p.iter().map(|(k, v)| (S::lit(k.build()), expand(v))).collect()),
         V::Ecma(c, p) => V::Ecma(*c, p.iter().map(|(k, v)| (S::lit(k.build()), expand(v))).collect()),
         V::Arr(a) => V::Arr(a.iter().map(expand).collect()),
+        V::Deep { .. } => expand(&unfold(v)),
         V::ArrRep(x, n) => V::Arr(vec![expand(x); *n as usize]),
         V::ObjRep(prefix, n) => V::Obj((0..*n).map(|i| (S::lit(format!("{}{}", prefix.build(), i)), V::Num((i as f64).to_bits()))).collect()),
         other => other.clone(),
